@@ -26,10 +26,13 @@ fn c10_probe() {
 }
 unsafe fn px_recvmsg(fd: RawFd, iovecs: &mut [libc::iovec], in_fds: &mut [RawFd]) -> vmm_sys_util::errno::Result<(usize, usize)> {
     c10_probe();
+    g::note_recv();
     g::ghost_recvmsg(fd, iovecs, in_fds)
 }
 fn px_sendmsg<D: vmm_sys_util::sock_ctrl_msg::IntoIovec>(fd: RawFd, out_data: &[D], out_fds: &[RawFd]) -> vmm_sys_util::errno::Result<usize> {
     c10_probe();
+    // SAFETY: single-threaded harness
+    unsafe { g::note_send() };
     g::ghost_sendmsg(fd, out_data, out_fds)
 }
 
@@ -129,6 +132,7 @@ fn e_proxy(op: u32, class: usize, fl: u8) {
         }
         assert!(!g::G.lent_closed, "C09: lent descriptor closed");
         assert!(!LOCK_FREE_AT_SYSCALL.0, "C10: proxy lock free during a socket call of the transaction");
+        assert!(!g::G.lock_retaken, "C10: the proxy lock was released and taken again between a request and the reading of its reply");
         assert!((*NODE_PTR.0).try_lock().is_ok(), "C10: proxy lock released on return");
     }
 }
@@ -139,6 +143,7 @@ macro_rules! e_px {
         #[kani::unwind(5)]
         #[kani::stub(vmm_sys_util::sock_ctrl_msg::raw_recvmsg, px_recvmsg)]
         #[kani::stub(vmm_sys_util::sock_ctrl_msg::raw_sendmsg, px_sendmsg)]
+        #[kani::stub(std::sync::Mutex::lock, g::ghost_mutex_lock)]
         #[kani::stub(libc::close, g::ghost_close)]
         #[kani::stub(<std::os::fd::OwnedFd as std::ops::Drop>::drop, g::ghost_ownedfd_drop)]
         #[kani::stub(std::alloc::handle_alloc_error, g::ghost_alloc_error)]
@@ -169,6 +174,16 @@ e_px!(e_px_shmem_map_gated, 9, 0, 1);
 e_px!(e_px_shmem_unmap_noack, 10, 0, 4);
 // @harness props=C18,C01,C06,C07,C10 tier=quick reach=off timeout=500 bound="Backend::shmem_unmap: all argument bytes; feature flag not set: refused, nothing on the wire; conformant ack header" stubs="raw_recvmsg/raw_sendmsg (ghost socket + lock probe), OwnedFd::drop, handle_alloc_error, From<vhost_user::Error> for io::Error (payload dropped)"
 e_px!(e_px_shmem_unmap_gated, 10, 0, 1);
+// @harness props=C18,C01,C06,C10 tier=quick reach=off timeout=900 mem=24 bound="Backend::shared_object_add through the public method with REPLY_ACK: all argument bytes, conformant ack header, ack value and 0..=1 descriptors symbolic" stubs="raw_recvmsg/raw_sendmsg (ghost socket + lock probe), Mutex::lock (acquisition counter, self-deadlock detector), OwnedFd::drop, close, handle_alloc_error, From<vhost_user::Error> for io::Error (payload dropped)"
+e_px!(e_px_shared_object_add_ack, 6, 0, 3);
+// @harness props=C18,C06,C10 tier=thorough reach=off timeout=900 mem=24 bound="Backend::shared_object_add with REPLY_ACK answered with another request's code" stubs="raw_recvmsg/raw_sendmsg (ghost socket + lock probe), Mutex::lock (acquisition counter, self-deadlock detector), OwnedFd::drop, close, handle_alloc_error, From<vhost_user::Error> for io::Error (payload dropped)"
+e_px!(e_px_shared_object_add_ack_foreign, 6, 1, 3);
+// @harness props=C18,C01,C06,C10,C09 tier=quick reach=off timeout=900 mem=24 bound="Backend::shmem_map through the public method with REPLY_ACK: all argument bytes, conformant ack header, ack value and 0..=1 descriptors symbolic" stubs="raw_recvmsg/raw_sendmsg (ghost socket + lock probe), Mutex::lock (acquisition counter, self-deadlock detector), OwnedFd::drop, close, handle_alloc_error, From<vhost_user::Error> for io::Error (payload dropped)"
+e_px!(e_px_shmem_map_ack, 9, 0, 5);
+// @harness props=C18,C06,C10 tier=thorough reach=off timeout=900 mem=24 bound="Backend::shmem_unmap with REPLY_ACK answered without the REPLY flag" stubs="raw_recvmsg/raw_sendmsg (ghost socket + lock probe), Mutex::lock (acquisition counter, self-deadlock detector), OwnedFd::drop, close, handle_alloc_error, From<vhost_user::Error> for io::Error (payload dropped)"
+e_px!(e_px_shmem_unmap_ack_noreplyflag, 10, 2, 5);
+// @harness props=C18,C01,C06,C10,C09 tier=thorough reach=off timeout=900 mem=24 bound="Backend::shared_object_lookup through the public method with REPLY_ACK" stubs="raw_recvmsg/raw_sendmsg (ghost socket + lock probe), Mutex::lock (acquisition counter, self-deadlock detector), OwnedFd::drop, close, handle_alloc_error, From<vhost_user::Error> for io::Error (payload dropped)"
+e_px!(e_px_shared_object_lookup_ack, 8, 0, 3);
 
 // ---- acknowledged requests at unit level: BackendInternal::send_message / wait_for_ack on an endpoint built
 // on the stack.  (Through the public methods the ack path converts every vhost_user::Error into a boxed
